@@ -79,18 +79,19 @@ Fixpoint take_docs (l : list stmt) : list str * list stmt :=
    and module-procedure lists one constructor reads it. *)
 Definition leaf_ents (l : lkind) (names : list str) (docs : list str) : list ent :=
   match l with
-  | LVariable | LCommon => map (fun n => Leaf l n docs) names
+  | LVariable | LCommon | LNamelist | LUse => map (fun n => Leaf l n docs) names
   | LBoundProc =>
+    (* the bindings of one statement are built from the last name to the first; the first one
+       built reads the documentation *)
+    match rev names with
+    | [] => []
+    | lastn :: others => Leaf l lastn docs :: map (fun n => Leaf l n []) others
+    end
+  | LFinal | LModProcRef =>
     match rev names with
     | [] => []
     | lastn :: others => rev (Leaf l lastn docs :: map (fun n => Leaf l n []) others)
     end
-  | LFinal =>
-    match rev names with
-    | [] => []
-    | lastn :: others => rev (Leaf l lastn docs :: map (fun n => Leaf l n []) others)
-    end
-  | LModProcRef | LNamelist | LUse => map (fun n => Leaf l n docs) names
   end.
 
 Record cstate := { cs_incontains : bool; cs_block : nat; cs_negblock : nat;
